@@ -82,6 +82,31 @@ def project(cset):
     return sorted(out, key=lambda d: (d["path"], d["kind"]))
 
 
+def other_backends(backend, d, fs, ContentsFile, old, new, first_time):
+    """flush old then new through one data_source / local_source object; yield (label, projected reload)"""
+    from snakeoil import data_source
+    os.makedirs(d)
+    p = os.path.join(d, "CONTENTS")
+    if backend == "data":
+        src = data_source.data_source("", mutable=True)
+    else:
+        open(p, "w").close()
+        src = data_source.local_source(p, mutable=True)
+    for ents in ([] if first_time else [old]) + [new]:
+        c = ContentsFile(src, mutable=True, create=True)
+        for o in build(fs, ents):
+            c.add(o)
+        c.flush()
+    views = [(backend, lambda: ContentsFile(src))]
+    if backend == "local":
+        views.append(("local-then-path", lambda: ContentsFile(p)))
+    for how, load in views:
+        try:
+            yield how, project(load())
+        except Exception as e:  # a reload that raises holds none of the written entries
+            yield how, [dict(kind="raised", path=type(e).__name__, md5="-", mtime=0, target="-")]
+
+
 def run(ck):
     use_repo()
     from pkgcore.fs import fs
@@ -108,6 +133,7 @@ def run(ck):
     r_ = rng(24)
     root = mktmp("c24")
     rt_events, fs_events = [], []
+    case_old, case_new = {}, {}
     n = ck.pick(12, 200)
     if ck.replay_case:
         n = 1
@@ -150,7 +176,15 @@ def run(ck):
             e["case"] = tid
         fs_events += evs
         loaded = info["new_view"].get("entries", []) if isinstance(info["new_view"], dict) else []
-        rt_events.append(dict(tid=tid, i=1, written=[{k: v for k, v in e.items() if k != "frac"} for e in new], loaded=loaded))
+        written = [{k: v for k, v in e.items() if k != "frac"} for e in new]
+        case_old[tid], case_new[tid] = old, written
+        rt_events.append(dict(tid=len(rt_events), i=1, written=written, loaded=loaded, backend="path", _old=old))
+        # the same exchange through the other two kinds of source ContentsFile accepts: an in-memory
+        # data_source and a local_source over a file; the old set is flushed first through the same
+        # source object, so an in-place rewrite that leaves a tail of the old text behind is seen
+        for backend in ("data", "local"):
+            for how, got in other_backends(backend, os.path.join(root, f"b{tid}-{backend}"), fs, ContentsFile, old, new, first_time):
+                rt_events.append(dict(tid=len(rt_events), i=1, written=written, loaded=got, backend=how, _old=old))
         ck.count()
         if len(new) >= 2:
             ck.nontriv((repr(old), repr(new)))
@@ -158,12 +192,11 @@ def run(ck):
             ck.sample(dict(old=old, new=new, syscalls=info["ops"], crash_points=info["crash_points"]))
         cases = ck.extra.setdefault("crash_points", 0)
         ck.extra["crash_points"] = cases + info["crash_points"]
-        rt_events[-1]["_old"] = old
     olds = {e["tid"]: e.pop("_old") for e in rt_events}
     for v in ck.trace("ContentsFile_Trace", rt_events):
         e = rt_events[v["tid"]]
-        ck.violation(v["clause"], dict(old=olds[v["tid"]], new=e["written"], loaded=e["loaded"]))
-    news = {e["tid"]: e["written"] for e in rt_events}
+        ck.violation(v["clause"], dict(old=olds[v["tid"]], new=e["written"], loaded=e["loaded"], backend=e["backend"]))
+    olds, news = case_old, case_new
     for v, e in atomic.judge(ck, fs_events):
         d = dict(old=olds[e["tid"]], new=news[e["tid"]], event=e.get("ev"), k=e.get("k"), kind=e.get("kind", e.get("op")),
                  at_op=e.get("at_op", e.get("op")), view=e.get("view"))
